@@ -453,6 +453,11 @@ def c06(tier, seed):
         if rng.random() < 0.3:
             # the group context managers are created up front and entered later / one manager decorates a function called per group
             scns[-1]["group_cm"] = rng.choice(["upfront", "decorator"])
+        if rng.random() < 0.3:
+            # the script calls World.ensure_no_dataflow_cycles() itself before its last k connections (asynchronous ones last half of the time)
+            if rng.random() < 0.5:
+                scns[-1]["conns"].sort(key=lambda c_: bool(c_.get("async")))
+            scns[-1]["precheck"] = rng.randint(0, max(0, len(scns[-1]["conns"]) - 1))
     nexh = len(scns) - nsample
     rings = c06_rings(tier, rng)
     scns += rings
@@ -1228,7 +1233,7 @@ def _c15_explicit(ver, mode):
     return "2.5" if (ver or "1") != "2.5" else "2.6"
 
 
-def _c15_inproc(ver, explicit, kind, hastype, fail=None):
+def _c15_inproc(ver, explicit, kind, hastype, fail=None, time_resolution=None):
     import contextlib
     import io
     import warnings
@@ -1253,7 +1258,7 @@ def _c15_inproc(ver, explicit, kind, hastype, fail=None):
     try:
         with contextlib.redirect_stdout(io.StringIO()), warnings.catch_warnings(record=True):
             warnings.simplefilter("always")
-            world = mosaik.World({"S": cfg}, asyncio_loop=loop, skip_greetings=True)
+            world = mosaik.World({"S": cfg}, asyncio_loop=loop, skip_greetings=True, **({"time_resolution": time_resolution} if time_resolution else {}))
             try:
                 fac = world.start("S", sim_id="Sa")
                 res["type_seen"] = fac.type
@@ -1337,7 +1342,10 @@ def c15_rows():
                             "requests": [x[0] for x in log][:12],
                         })
                         continue
-                    r = _c15_remote(ver, explicit, hastype) if kind == "remote" else _c15_inproc(ver, explicit, kind, hastype)
+                    # (half of the in-process rows run in a World whose time_resolution is not the default: what an old simulator
+                    #  is sent must not depend on the VALUE of an argument it cannot take)
+                    tr = 0.5 if (C15_VERSIONS.index(ver) + len(explicit) + len(kind)) % 2 else None
+                    r = _c15_remote(ver, explicit, hastype) if kind == "remote" else _c15_inproc(ver, explicit, kind, hastype, time_resolution=tr)
                     log = r["log"]
                     init = next((x for x in log if x[0] == "init"), None)
                     step = next((x for x in log if x[0] == "step"), None)
@@ -1374,7 +1382,7 @@ def c15(tier, seed):
         "samples": [rows[3], next(r for r in rows if r["out"] == "ok" and r["vs"] == "2.1" and r["kind"] == "remote")],
         "evaluations": len(rows), "distinct_nontrivial": len(rows),
         "rule": f"api_version in {C15_VERSIONS} x explicit api_version (absent / equal / different) x (remote stub behind the shipped RemoteProxy over fake streams, "
-                "in-process stub with v3 signatures in three legal shapes (time_resolution positional-or-keyword / keyword-only without **kwargs / only **kwargs), in-process stub with old signatures, and each kind once more as a class derived from a class of the OTHER kind that was started earlier in the process) x meta without type / with type time-based, event-based, hybrid x (in-process) three extra-method calls x the stub's second step raising ValueError / RuntimeError / KeyError; each row = world.start + create + run(until=3) "
+                "in-process stub with v3 signatures in three legal shapes (time_resolution positional-or-keyword / keyword-only without **kwargs / only **kwargs), in-process stub with old signatures, and each kind once more as a class derived from a class of the OTHER kind that was started earlier in the process) x meta without type / with type time-based, event-based, hybrid x World time_resolution 1.0 / 0.5 (in-process rows) x (in-process) three extra-method calls x the stub's second step raising ValueError / RuntimeError / KeyError; each row = world.start + create + run(until=3) "
                 "with the exact requests the stub received; compared with the run of a 3.0 stub",
         "exhaustive": True,
         "outcomes": dict(collections.Counter((r["kind"], r["out"]) .__str__() for r in rows)),
